@@ -657,7 +657,13 @@ func (e *chainEnv) build(encOff bool) (c *restful.Container, outer *restful.Cont
 		ws.Route(mk(ws.GET("/data/{id}").Produces("application/xml")))
 		rfs = cfg.RF
 	}
+	// a route below a path that a service with a longer root claims (/svc/deep): that service has no
+	// route for it, so the request fails routing - the longer matching root owns the URL
+	ws.Route(mk(ws.GET("/deep/x/{id}")))
 	c.Add(ws)
+	wsDeep := new(restful.WebService).Path("/svc/deep").Produces("application/json")
+	wsDeep.Route(wsDeep.GET("/only").To(e.routeFunc))
+	c.Add(wsDeep)
 	if cfg.RouteEncLate != 0 && !encOff {
 		// the other documented way to set the override: on the registered route itself
 		rs := ws.Routes()
@@ -749,6 +755,8 @@ func (r *ChainReq) httpReq(t *sim.Task) *http.Request {
 		return NewReq("POST", "/svc/post", hdr, &sim.SimBody{T: t, Data: data, Chunks: []int{7, 64}}, int64(len(data)), r.ID)
 	case "notfound":
 		return NewReq("GET", "/svc/none/at/all", hdr, nil, 0, r.ID)
+	case "shadowed":
+		return NewReq("GET", fmt.Sprintf("/svc/deep/x/tok%d", r.ID), hdr, nil, 0, r.ID)
 	case "muxnotfound":
 		return NewReq("GET", "/elsewhere", hdr, nil, 0, r.ID)
 	case "badmethod":
@@ -786,7 +794,7 @@ func (cfg *ChainCfg) filtersFor(target string) []FSpec {
 		fs = append(fs, cfg.CF...)
 		fs = append(fs, cfg.SF...)
 		fs = append(fs, cfg.RFT...)
-	case "notfound", "badmethod", "notacceptable", "unsupported", "plainf":
+	case "notfound", "badmethod", "notacceptable", "unsupported", "plainf", "shadowed":
 		fs = append(fs, cfg.CF...)
 	case "muxnotfound":
 		if cfg.Entry == "Dispatch" { // Dispatch bypasses the mux: the router answers 404 inside the container filters
@@ -1055,7 +1063,7 @@ func genChainReq(tp *sim.Tape, cfg *ChainCfg, k chainKnobs, id int) *ChainReq {
 	r := &ChainReq{ID: id}
 	targets := []string{"route", "route", "post"}
 	if k.errors {
-		targets = append(targets, "notfound", "badmethod", "notacceptable", "unsupported", "muxnotfound")
+		targets = append(targets, "notfound", "badmethod", "notacceptable", "unsupported", "muxnotfound", "shadowed")
 	}
 	if k.plain {
 		targets = append(targets, "plain", "plainf")
